@@ -123,6 +123,13 @@ def showIdxs (l : List Idx) : String :=
 def dump (d : DSt) : String :=
   "ok rows=" ++ Table.showRows ((sortRows d.st.rows).map fun p => some (Int.ofNat p.1) :: p.2) ++ " idx=" ++ showIdxs d.st.idxs
 
+def splitArrow : List String → List String → Option (List String × List String)
+  | _, [] => none
+  | acc, "=>" :: rest => some (acc.reverse, rest)
+  | acc, t :: rest => splitArrow (t :: acc) rest
+
+def colsOk (e : Expr) : Bool := e.colsBelow width
+
 /-! ### layout -/
 
 def liveOf (phys : List (Nat × List (Option Row))) : List (Nat × Row) :=
@@ -131,11 +138,29 @@ def liveOf (phys : List (Nat × List (Option Row))) : List (Nat × Row) :=
 /-- the model state and the layout agree on the live rows -/
 def inSync (d : DSt) : Bool := sortRows d.st.rows == liveOf d.phys
 
-def tombstone (p : Expr) (phys : List (Nat × List (Option Row))) : List (Nat × List (Option Row)) :=
-  (phys.map fun f => (f.1, f.2.map fun r =>
+def tombstone (hit : List Nat) (phys : List (Nat × List (Option Row))) : List (Nat × List (Option Row)) :=
+  (phys.map fun f => (f.1, (zipIdxFrom f.2 0).map fun (o, r) =>
     match r with
-    | some r => if isTrue p r then none else some r
+    | some r => if hit.contains (addr f.1 o) then none else some r
     | none => none)).filter fun f => f.2.any Option.isSome
+
+/-- the rows the filter scan of a delete / update selects: the scan uses the scalar indices (on the simplified filter
+    when the op line carries one) -/
+def selectHit (d : DSt) (e : Expr) (opt : Option Expr) : List Nat :=
+  match opt with
+  | none => (scanPlain d.st e).map (·.1)
+  | some o =>
+    match scanIndexed d.st o with
+    | .ok rows => rows.map (·.1)
+    | .error _ => []
+
+def parsePredOpt (toks : List String) : Option (Expr × Option Expr) :=
+  match splitArrow [] toks with
+  | some (a, b) =>
+    match parseExprAll a, (if b = ["?"] then some none else (parseExprAll b).map some) with
+    | some e, some o => if colsOk e && (match o with | some o => colsOk o | none => true) then some (e, o) else none
+    | _, _ => none
+  | none => none
 
 def coverage (idxs : List Idx) (f : Nat) : List Nat :=
   (idxs.filter fun i => i.frags.contains f).map (·.col)
@@ -187,8 +212,6 @@ def compactBins : List (List (Nat × List (Option Row))) → DSt → Option DSt
 
 def rowsOk (rs : List Table.Row) : Bool := !rs.isEmpty && rs.all (fun r => r.length == width)
 
-def colsOk (e : Expr) : Bool := e.colsBelow width
-
 def finish (d : DSt) (r : Option DSt) : DSt × String :=
   match r with
   | none => (d, "!precondition")
@@ -216,11 +239,6 @@ def ievalLine (d : DSt) (q : IExpr) : String :=
       | .atLeast _ => "atleast"
     "ok " ++ kind ++ " sel=" ++ showAddrs ((d.st.rows.filter fun p => res.mask.selected p.1).map (·.1))
 
-def splitArrow : List String → List String → Option (List String × List String)
-  | _, [] => none
-  | acc, "=>" :: rest => some (acc.reverse, rest)
-  | acc, t :: rest => splitArrow (t :: acc) rest
-
 def step (d : DSt) (line : String) : DSt × String :=
   let toks := (line.dropRightWhile (· == '\n')).splitOn " "
   if toks.any (· == "") then (d, "err parse") else
@@ -246,24 +264,26 @@ def step (d : DSt) (line : String) : DSt × String :=
           { d with st := st', phys := d.phys ++ [(d.next, rows.map some)], next := d.next + 1 })
     | none => (d, "err parse")
   | "delete" :: rest =>
-    match parseExprAll rest with
-    | some e =>
-      if !colsOk e then (d, "err parse")
-      else if !d.started then (d, "err not_found")
-      else finish d ((C19.step d.st (.delete e)).map fun st' => { d with st := st', phys := tombstone e d.phys })
+    match parsePredOpt rest with
+    | some (e, o) =>
+      if !d.started then (d, "err not_found")
+      else
+        let hit := selectHit d e o
+        finish d ((C19.step d.st (.delete hit)).map fun st' => { d with st := st', phys := tombstone hit d.phys })
     | none => (d, "err parse")
   | "update" :: c :: v :: rest =>
-    match parseCol c, Table.parseCell v, parseExprAll rest with
-    | some c, some v, some e =>
-      if !(decide (c < width) && colsOk e) then (d, "err parse")
+    match parseCol c, Table.parseCell v, parsePredOpt rest with
+    | some c, some v, some (e, o) =>
+      if !decide (c < width) then (d, "err parse")
       else if !d.started then (d, "err not_found")
       else
-        let hit := (liveOf d.phys).filter fun p => isTrue e p.2
+        let hitA := selectHit d e o
+        let hit := (liveOf d.phys).filter fun p => hitA.contains p.1
         if hit.isEmpty then finish d (some d) else
         let addrs := (zipIdxFrom hit 0).map fun (o, _) => addr d.next o
-        finish d ((C19.step d.st (.update c v e addrs)).map fun st' =>
+        finish d ((C19.step d.st (.update c v hitA addrs)).map fun st' =>
           { d with st := st', next := d.next + 1,
-                   phys := tombstone e d.phys ++ [(d.next, hit.map fun p => some (setCell p.2 c v))] })
+                   phys := tombstone hitA d.phys ++ [(d.next, hit.map fun p => some (setCell p.2 c v))] })
     | _, _, _ => (d, "err parse")
   | ["compact"] =>
     if !d.started then (d, "err not_found")
@@ -287,14 +307,8 @@ def step (d : DSt) (line : String) : DSt × String :=
         (d, "ok sq=[" ++ showOptIE plan.sq ++ "] refine=[" ++ showOptExpr plan.refine ++ "]")
     | _, _ => (d, "err parse")
   | "scan" :: rest =>
-    match splitArrow [] rest with
-    | some (a, b) =>
-      match parseExprAll a, (if b = ["?"] then some none else (parseExprAll b).map some) with
-      | some e, some o =>
-        if !(colsOk e && (match o with | some o => colsOk o | none => true)) then (d, "err parse")
-        else if !d.started then (d, "err not_found")
-        else (d, scanLine d e o)
-      | _, _ => (d, "err parse")
+    match parsePredOpt rest with
+    | some (e, o) => if !d.started then (d, "err not_found") else (d, scanLine d e o)
     | none => (d, "err parse")
   | "ieval" :: rest =>
     match parseIE (rest.length + 1) rest with
